@@ -458,6 +458,12 @@ def run(chk):
         m_hist, oracle = mt[1], mt[2]
         i_hist, i_res = it[1], it[2]
         exp_res = expected_results(t, m_hist)
+        if len(it) > 3 and it[3]:
+            # pid lifecycle subscription (pid_registry::monitor) disagrees with the pid table: not part of
+            # C10's statement, reported as a correspondence difference
+            chk.violation("pid lifecycle events disagree with the pid table ((actor, spawn events), (terminate events, expected)), or a typed lookup returned a wrongly typed reference ((name, 997), _)",
+                          "correspondence E1:reg pid lifecycle subscriber differs\n" + json.dumps({"ops": ops}) + "\n" + show_term(it[3]),
+                          failing_input=False)
         chk.count("source." + src.split(":")[0])
         for o in ops:
             chk.count("op." + o[0] + ("." + o[3] if o[0] == "sp" else ""))
